@@ -55,6 +55,10 @@ func (sv structValue) PropertyValue(index Value) Value {
 	}
 	if field, ok := sv.findField(name); ok {
 		fv := sr.FieldByName(field.Name)
+		if !fv.CanInterface() {
+			// unexported fields are not visible to templates
+			return nilValue
+		}
 		if fv.Kind() == reflect.Func {
 			return sv.invoke(fv)
 		}
